@@ -239,6 +239,7 @@ class LifeHarness:
         addresses: tuple[str, ...] = ("10.0.0.1",),
         dns_answer: tuple[str, ...] = ("10.0.0.7",),
         legal_only: bool = False,
+        etimedout: bool = False,
     ) -> None:
         self.noise = noise
         self.seed = seed
@@ -249,6 +250,7 @@ class LifeHarness:
             if all((noise or a not in NOISE_ONLY) and not (noise and a in PLAIN_ONLY) for a in p)
         )
         self.user = user
+        self.etimedout = etimedout
         self.misuse = misuse
         self.faults = faults
         self.nd = nd
@@ -398,7 +400,7 @@ class LifeHarness:
                 ok_atoms = [a for a in self.atoms if self._atom_ok(w, a)]
                 base += [f"c:{a}" for a in ok_atoms]
                 base += [f"c:{a}+{b}" for a, b in self.pairs if a in ok_atoms and self._pair_ok(w, a, b)]
-                base += ["eof", "rst"]
+                base += ["eof", "rst"] + (["etimedout"] if self.etimedout else [])
                 if w.armed is None:
                     base += list(self.faults)
         if w.loop.next_timer_at() is not None and w.loop.next_timer_at() <= w.loop.time() + self.horizon:
@@ -506,6 +508,11 @@ class LifeHarness:
         elif label == "rst":
             kind = "io"
             w.io_rst(w.sock)
+        elif label == "etimedout":
+            # the kernel gave up retransmitting: recv() raises the builtin TimeoutError (the same class asyncio.TimeoutError is)
+            kind = "io"
+            w.sock.inbox.append(TimeoutError(errno.ETIMEDOUT, "Connection timed out"))
+            w.note("io_etimedout", w.sock.fd)
         elif label == "wf:sync":
             w.armed = label
             w.write_fault = OSError(errno.EPIPE, "Broken pipe (armed)")
